@@ -30,7 +30,7 @@ META = {
 
 INV = ["ShapeApplies", "NoValueNoReject", "ClassesPartition", "SetsHoldHashables", "ScopeRespected"]
 ALL_CTORS = ["opt", "list", "set", "map_str", "map_int", "map_bytes", "map_enum", "dc"]
-ALL_LEAVES = ["int", "i8", "i16", "i32", "u8", "u16", "u32", "u64", "float", "f32", "str", "bytes", "bool", "enum", "dec",
+ALL_LEAVES = ["int", "i8", "i16", "i32", "u8", "u16", "u32", "u64", "float", "f32", "str", "bytes", "bool", "enum", "senum", "menum", "ienum", "dec",
               "ts_us", "ts_tz", "date", "time", "dur", "schema", "batch", "tuple", "mset"]
 
 
@@ -230,7 +230,8 @@ def run(ctx: Ctx) -> None:
 def _in_range(leaf: str) -> list:
     table_ = {"float": ["typical", "zero", "negzero", "nan", "inf", "max", "denorm"], "f32": ["typical", "zero", "negzero", "nan", "inf", "max", "denorm"],
               "str": ["ascii", "empty", "nonascii", "nul"], "bytes": ["nul_ff", "empty", "long"], "bool": ["true", "false"],
-              "enum": ["value_ne_name", "value_is_other_name", "int_valued"], "dec": ["neg", "zero", "max_digits"],
+              "enum": ["value_ne_name", "value_is_other_name", "int_valued"], "senum": ["value_ne_name", "value_is_other_name"],
+              "menum": ["value_ne_name", "value_is_other_name"], "ienum": ["int_valued"], "dec": ["neg", "zero", "max_digits"],
               "ts_us": ["micro", "epoch", "min", "max"], "ts_tz": ["utc", "offset"], "date": ["epoch", "min", "max"],
               "time": ["max", "midnight"], "dur": ["neg", "zero", "big"], "schema": ["with_metadata", "empty", "nested"],
               "batch": ["rows", "zero_rows", "with_metadata"], "tuple": ["any"], "mset": ["any"]}
@@ -262,7 +263,7 @@ def _nearest_ok(term, sent, got) -> bool:
         return False
 
 
-NEEDS_CONVERSION = {"enum", "dc", "set", "map_str", "map_int", "map_bytes", "map_enum", "schema", "batch"}
+NEEDS_CONVERSION = {"enum", "senum", "menum", "ienum", "dc", "set", "map_str", "map_int", "map_bytes", "map_enum", "schema", "batch"}
 
 
 def family(term) -> str:
